@@ -157,6 +157,9 @@ META["rule"] += (
 META["rule"] += (
     " " + 'Added after the seventh round: the event thresholds of RainfallClimateNetwork are drawn ((0,1), (0.5,1), (0.8,1.0), (0.25,0.9)); answers handed out before a setter stay what they were.')
 
+META["rule"] += (
+    " " + 'Added after the eighth round: geographical queries between the setters; coincident pairs in a quarter and whole-degree antipodes in a fifth of the grids; the distance matrix the damping is evaluated on is compared coarsely (2e-3 rad) with the great-circle distance of the coordinates.')
+
 G = 64.0
 GUARD = 1e-4
 
@@ -406,6 +409,18 @@ def expect_density(m, rho):
 def clustered_latlon(rng, n):
     """Clusters of nearby nodes: pair distances from 0 to ~0.3 rad inside a
     cluster (where the damping acts), anything between clusters."""
+    if n >= 4 and rng.random() < 0.2:
+        # nodes of a global grid (whole degrees) together with the grid
+        # points on the opposite side of the globe (every global lat/lon
+        # grid whose longitude step divides 180 has them)
+        h = n // 2
+        step = float(rng.choice([1.0, 1.0, 2.0, 4.0, 12.0]))
+        la = rng.integers(-80 // step, 80 // step + 1, h) * step
+        lo = rng.integers(-180 // step, 180 // step, h) * step
+        lat = np.concatenate([la, -la, rng.uniform(-60, 60, n - 2 * h)])
+        lon = np.concatenate([lo, np.where(lo >= 0, lo - 180.0, lo + 180.0),
+                              rng.uniform(-170, 170, n - 2 * h)])
+        return lat, lon
     k = int(rng.integers(1, max(2, n // 2) + 1))
     clat = rng.uniform(-70, 70, k)
     clon = rng.uniform(-170, 170, k)
@@ -413,8 +428,14 @@ def clustered_latlon(rng, n):
     spread = rng.choice([0.5, 2.0, 6.0, 12.0])
     lat = clat[which] + rng.uniform(-spread, spread, n)
     lon = clon[which] + rng.uniform(-spread, spread, n)
-    if rng.random() < 0.15 and n >= 2:      # coincident pair
+    if rng.random() < 0.25 and n >= 2:      # coincident pair
         lat[1], lon[1] = lat[0], lon[0]
+    if rng.random() < 0.2 and n >= 3:
+        # two stations exactly opposite each other on the globe (whole
+        # degrees): as far apart as two nodes can be
+        lat[0], lon[0] = np.round(lat[0]), np.round(lon[0])
+        lat[2] = -lat[0]
+        lon[2] = lon[0] - 180.0 if lon[0] > 0 else lon[0] + 180.0
     return np.clip(lat, -89, 89), lon
 
 
@@ -610,6 +631,10 @@ READ_ONLY = ("correlation_distance", "inv_correlation_distance",
              "local_correlation_distance_weighted_vulnerability",
              "average_link_distance", "max_link_distance",
              "area_weighted_connectivity", "nsi_degree",
+             "local_geographical_clustering", "total_link_distance",
+             "average_neighbor_distance", "max_neighbor_distance",
+             "connectivity_weighted_distance",
+             "local_geographical_clustering",
              "cross_correlation_max", "mutual_information", "spearman_corr",
              # dropping derived matrices by hand, and reading them back
              "clear_cache", "cache_clear", "phase_shift", "coherence",
@@ -699,6 +724,23 @@ def base_case(ctx, k, cid):
     D = None
     if ok:
         D = np.asarray(net.grid.angular_distance(), dtype=np.float64)
+        # (coarse sanity of the distance the damping is evaluated on: it is
+        #  the great-circle distance of the coordinates -- from coinciding
+        #  to opposite nodes -- up to single precision; its accuracy proper
+        #  is C12's subject)
+        la_, lo_ = np.radians(np.asarray(lat, float)), \
+            np.radians(np.asarray(lon, float))
+        cc = np.sin(la_)[:, None] * np.sin(la_)[None, :] + \
+            np.cos(la_)[:, None] * np.cos(la_)[None, :] * \
+            np.cos(lo_[:, None] - lo_[None, :])
+        Dref = np.arccos(np.clip(cc, -1, 1))
+        ctx.count("distance_matrices_sanity_checked")
+        if D.shape != Dref.shape or not np.all(np.abs(D - Dref) < 2e-3):
+            ctx.violation(f"{cname}:grid.angular_distance:not-the-great-"
+                          "circle-distance-of-the-coordinates",
+                          {"lat": lat, "lon": lon,
+                           "at": np.argwhere(~(np.abs(D - Dref) < 2e-3))[:4]
+                           if D.shape == Dref.shape else None}, cid)
     m = Model(cname, S32, D if D is not None else np.zeros((n, n)), directed,
               nl0)
     m.neg = bool((S < 0).any())
